@@ -512,3 +512,60 @@ def q5(prog):
     if n_read < 2:
         raise Broken("fewer reads of libdw's error indicator than confirmed by hand (3)")
     return inst, findings
+
+
+def q6(prog):
+    """A compiled query is shared by all its executions and by every application of a closure: the objects of its op graph (ops,
+    stringers, predicates, origins) must not change after the query has been built.  For every class of the op graph, every member
+    function that may modify its object (r_pred.field_writers: assigns a field, calls a mutating container member on one, or calls
+    another such member) must be unreachable, in the call graph over resolved callees (virtual calls resolved to all overriders), from
+    the execution entry points next / set_next / result / state_con / state_des of any op-graph class."""
+    import r_pred
+    inst, findings = [], []
+    writers, _ = r_pred.field_writers(prog)
+    graph_cls = set()
+    for q in prog.records:
+        bs = [q] + prog.bases(q)
+        if any(b in ("op", "pred", "stringer") for b in bs):
+            graph_cls.add(q)
+    if len(graph_cls) < 30:
+        raise Broken("only %d classes of the op graph found (floor 30)" % len(graph_cls))
+    w_graph = {fid for fid in writers if prog.funcs[fid].get("cls") in graph_cls}
+    roots = [f for f in prog.funcs.values() if f.get("cls") in graph_cls and f["n"] in ("next", "set_next", "result", "state_con", "state_des") and f.get("body") is not None]
+    # call graph over resolved callees; virtual calls go to every overrider
+    over = {}
+    for f in prog.funcs.values():
+        for o in f.get("overrides", []) or []:
+            over.setdefault(o, []).append(f["fid"])
+    seen, work, via = set(), [f["fid"] for f in roots], {}
+    while work:
+        fid = work.pop()
+        if fid in seen:
+            continue
+        seen.add(fid)
+        f = prog.funcs.get(fid)
+        if f is None or f.get("body") is None:
+            continue
+        for c in walk(f["body"]):
+            if c.get("k") != "call" or not c.get("fid"):
+                continue
+            tgts = [c["fid"]] + (over.get(c["fid"], []) if c.get("virt") else [])
+            for t in tgts:
+                if t not in seen:
+                    via.setdefault(t, fid)
+                    work.append(t)
+    for fid in sorted(w_graph):
+        f = prog.funcs[fid]
+        key = "Q6:" + f["q"]
+        inst.append((key, {"reachable_from_execution": fid in seen}))
+        if fid in seen:
+            chain, cur = [], fid
+            while cur in via and len(chain) < 6:
+                cur = via[cur]
+                chain.append(prog.funcs[cur]["q"] if cur in prog.funcs else cur)
+            findings.append({"key": key, "where": "libzwerg/" + f["l"],
+                             "msg": "%s modifies an object of the compiled query's op graph and is reachable from execution (%s): the query is shared by all of its "
+                                    "result sets and closure applications, so live executions change each other's results" % (f["q"], " <- ".join(chain) or "an execution entry point"),
+                             "detail": None})
+    inst.append(("Q6:classes", {"op_graph_classes": len(graph_cls), "modifying_member_functions": len(w_graph), "execution_entry_points": len(roots)}))
+    return inst, findings
